@@ -1110,6 +1110,14 @@ func (e *codecEngine) unmodelledRoundTrips(c *Ctx) {
 			}
 			return deep(x.Message, y.Message)
 		}},
+		{"PipeResult", &vivid.PipeResult{Id: "p3", Error: fmt.Errorf("boom")}, func(a, b any) string {
+			// a failure that is not a *vivid.Error travels as the exception code: it must still be a failure
+			x, y := a.(*vivid.PipeResult), b.(*vivid.PipeResult)
+			if x.Id != y.Id || y.Error == nil || !strings.Contains(y.Error.Error(), "boom") {
+				return fmt.Sprintf("a failed result (error %v) decodes as id=%s error=%v", x.Error, y.Id, y.Error)
+			}
+			return ""
+		}},
 		{"PipeResult", &vivid.PipeResult{Id: "p2", Message: &vivid.OnLaunch{}, Error: vivid.ErrorFutureTimeout}, func(a, b any) string {
 			x, y := a.(*vivid.PipeResult), b.(*vivid.PipeResult)
 			if x.Id != y.Id || y.Error == nil || !errors.Is(y.Error, vivid.ErrorFutureTimeout) {
